@@ -184,3 +184,57 @@ pub fn emit_offset(a: &Args, out: &mut Out) {
     macro_rules! go { ($($n:literal),*) => {$( if only == 0 || only == $n { offset_cases!(out, vi, vu, $n); } )*}; }
     go!(1, 2, 3, 4, 5, 6, 7, 8, 9, 10, 11, 12, 13, 14, 15, 16);
 }
+
+/// C15: the real Word operators on operand pairs with full, empty and partial masks.
+/// kind "enum": structured pairs with at most 8 unknown bits in total (TLC enumerates
+/// every completion itself); kind "rand": arbitrary masks, the unknown bits re-randomized
+/// 64 times through the real operators; every record also carries the operation on the
+/// operands with their unknown bits re-drawn (`rr`: [a', b', value, mask]).
+pub fn emit_wordop(a: &Args, out: &mut Out) {
+    use lc3_ensemble::sim::mem::Word;
+    use rand::{Rng, SeedableRng};
+    let mut rng = rand::rngs::StdRng::seed_from_u64(a.seed ^ 0x30_0d);
+    let n = a.get_u64("n", if a.thorough() { 60_000 } else { 4_000 });
+    let wd = |v: u16, m: u16| Word::verif_from_parts(v, m);
+    let apply = |op: &str, x: Word, y: Word| -> Word {
+        match op { "add" => x + y, "sub" => x - y, "and" => x & y, _ => !x }
+    };
+    let vals: [u16; 12] = [0, 1, 2, 0x7FFF, 0x8000, 0xFFFF, 0xFFFE, 0x00FF, 0xFF00, 0x5555, 0xAAAA, 0x1234];
+    for k in 0..n {
+        let op = ["add", "sub", "and", "not"][(k % 4) as usize];
+        let enumk = k % 2 == 0;
+        let pickv = |rng: &mut rand::rngs::StdRng| if rng.random_range(0..3) == 0 { rng.random() } else { vals[rng.random_range(0..vals.len())] };
+        let mask = |rng: &mut rand::rngs::StdRng, maxu: u32| -> u16 {
+            if enumk {
+                // at most `maxu` unknown bits
+                let u = rng.random_range(0..=maxu);
+                let mut m = 0xFFFFu16;
+                for _ in 0..u { m &= !(1u16 << rng.random_range(0..16)); }
+                m
+            } else {
+                match rng.random_range(0..5) { 0 => 0xFFFF, 1 => 0, 2 => 0xFF00, 3 => 0x00FF, _ => rng.random() }
+            }
+        };
+        let (xv, yv) = (pickv(&mut rng), pickv(&mut rng));
+        let (xm, ym) = (mask(&mut rng, 4), mask(&mut rng, 4));
+        let (x, y) = (wd(xv, xm), wd(yv, ym));
+        let r = js::guard(|| apply(op, x, y));
+        let rec = match r {
+            Err(()) => json!({"ev":"WordOp","kind": if enumk {"enum"} else {"rand"},"op":op,"a":[xv,xm],"b":[yv,ym],"panic":1,"r":[0,0],"rr":[]}),
+            Ok(r) => {
+                let mut rr = vec![];
+                for _ in 0..(if enumk { 4 } else { 64 }) {
+                    let xa = (xv & xm) | (rng.random::<u16>() & !xm);
+                    let ya = (yv & ym) | (rng.random::<u16>() & !ym);
+                    match js::guard(|| apply(op, wd(xa, xm), wd(ya, ym))) {
+                        Ok(q) => rr.push(json!([xa, ya, q.get(), q.verif_mask()])),
+                        Err(()) => rr.push(json!([xa, ya, -1, -1])),
+                    }
+                }
+                json!({"ev":"WordOp","kind": if enumk {"enum"} else {"rand"},"op":op,"a":[xv,xm],"b":[yv,ym],"panic":0,
+                       "r":[r.get(), r.verif_mask()],"rr":rr})
+            }
+        };
+        out.emit(rec);
+    }
+}
